@@ -51,3 +51,9 @@ package fsnotify
 //@   ensures err != nil ==> res == nil && fds == old(fds) && goroutines == old(goroutines)        [C13]
 //@   ensures err == nil ==> res != nil && chCap(res.Events) == sz && chCap(res.Errors) == 0 &&
 //@             fds == old(fds) + 1 && goroutines == old(goroutines) + 1                             [C14 C13] "the Events capacity is exactly the size requested"
+
+// Package-level configuration the proofs treat as constants: no non-test code assigns them.
+//@ pkgimmutable enableRecurse       [C01 C02 C03 C04 C05 C06 C07 C08 C09 C10 C11 C12 C13 C14] "the recursive feature is switched on only by tests: the other properties are claimed for enableRecurse == false"
+//@ pkgimmutable defaultBufferSize   [C14] "the platform default buffer size is a constant"
+//@ pkgimmutable defaultOpts         [C01 C14 C15] "the default operation set is a constant"
+//@ pkgimmutable debug               [C14]
